@@ -1,8 +1,25 @@
-"""C04 -- SmallSet is observationally a std::set across its inline/large transition, both backings (E2)."""
-from checks import e1, e2
+"""C04 -- SmallSet is observationally a std::set across its inline/large transition, both backings (E2), plus the bulk
+paths through the inline/large boundary on sets and ranges of up to 24 (thorough: 40) equivalence classes (grid_c03.cpp
+built for SmallSet<int,4> over a FlatSet and over a std::set)."""
+import re
+
+from checks import e1, e2, grids
 
 
 def run(ctx):
-    matrix = e2.small_quick() if ctx.tier == "quick" else e2.small_thorough()
+    q = ctx.tier == "quick"
+    matrix = e2.small_quick() if q else e2.small_thorough()
     cov = e1.explore(ctx, matrix, ["C04"], engine="E2", eng=e2.ENG)
-    return ctx.finish("model_checking", cov, e2.ASSUME)
+    base = ["-std=c++17", "-O1", "-g1", "-w", "-DAMC_NONSTD_FEATURES", "-fsanitize=address"]
+    configs = [("smallset4-flatset-amcvector-asc", base + ["-DC03_KIND=1", "-DC03_VEC=0", "-DC03_CMP=0"]),
+               ("smallset4-stdset-desc", base + ["-DC03_KIND=2", "-DC03_VEC=0", "-DC03_CMP=1"])]
+    if not q:
+        configs += [("smallset4-flatset-smallvector4-desc", base + ["-DC03_KIND=1", "-DC03_VEC=1", "-DC03_CMP=1"]),
+                    ("smallset4-flatset-stdvector-asc", base + ["-DC03_KIND=1", "-DC03_VEC=3", "-DC03_CMP=0"]),
+                    ("smallset4-stdset-asc", base + ["-DC03_KIND=2", "-DC03_VEC=0", "-DC03_CMP=0"])]
+    g = grids.run_grids(ctx, "grid_c03.cpp", "G04", configs, ["--nmax", "24" if q else "40"],
+                        lambda f: re.sub(r"\d+", "#", f.split("|")[0] + "|" + f.split("|")[-1].split(":")[0]),
+                        "one bulk operation on one (held set, range) pair compared element by element with std::set")
+    cov["bulk_grid_points"] = g["evaluations"]
+    cov["samples"] = cov["samples"][:10] + [{"bulk grid point": s} for s in g["samples"][:2]]
+    return ctx.finish("model_checking", cov, e2.ASSUME + ["bulk grid: among equivalent elements of ONE inserted range any may survive (unspecified, LWG 2844); an element already held always stays"])
